@@ -189,6 +189,58 @@ theorem taken_drop (cap b len idx f : Nat) (s : OSt) (ρ' : Type) (hi : idx ≤ 
     ptr_drop_in_place, h3, hc, hd, afterTakenDrop]
   cases hh : dpHit s.dpanic (len - idx) <;> simp [cleanup]
 
+/-- a caller that pulls `j` times from a chunk iterator through `next()` and then drops it (`for`, `take(j)`, and — through
+std's default methods, `taken_overrides_only_next` — `nth`, `fold`, `count`, `for_each`): the positions it receives -/
+def consumeTaken {ρ' : Type} (f : Nat) : Nat → Taken → PF ρ' (List Nat)
+  | 0, t => do
+    let _ ← Taken.drop f t
+    pure []
+  | j + 1, t => do
+    let r ← Taken.next f t
+    match r.1 with
+    | some p => do
+      let l ← consumeTaken f j r.2
+      pure (p :: l)
+    | none => consumeTaken f j r.2
+
+/-- the state after `j` pulls and the drop of a chunk over `[b, b + len)` of which `idx` had been taken before -/
+def afterConsume (s : OSt) (b len idx j : Nat) : OSt :=
+  { s with vac := s.vac ++ rangeList (b + idx) (b + min (idx + j) len), dr := s.dr ++ rangeList (b + min (idx + j) len) (b + len),
+           dpanic := dpAfter s.dpanic (len - min (idx + j) len) }
+
+/-- **every chunk is partitioned**: whatever the number of pulls, the caller receives the first `min j (len - idx)`
+remaining positions, in order, and the drop destroys exactly the others — every position of the chunk exactly once, nothing
+else touched, no fault, also when one of the destructors panics -/
+theorem consume_taken (cap b len f : Nat) (ρ' : Type) (hc : b + len ≤ cap) (hw : cap < W) :
+    ∀ (j idx : Nat) (s : OSt), idx ≤ len → Untouched s (b + idx) (b + len) →
+    (consumeTaken f j (taken cap b len idx) : PF ρ' _) s =
+      if dpHit s.dpanic (len - min (idx + j) len) then .unwind (afterConsume s b len idx j)
+      else .ok (.norm (rangeList (b + idx) (b + min (idx + j) len))) (afterConsume s b len idx j)
+  | 0, idx, s, hi, hu => by
+    have hm : min (idx + 0) len = idx := by omega
+    simp only [consumeTaken, bind, PF.bind, taken_drop cap b len idx f s _ hi hc hu, afterConsume, hm, afterTakenDrop,
+      rangeList_nil (b + idx) (b + idx) (Nat.le_refl _), List.append_nil]
+    cases hh : dpHit s.dpanic (len - idx) <;> simp [pure]
+  | j + 1, idx, s, hi, hu => by
+    by_cases hlt : idx < len
+    · have hu' : Untouched { s with vac := s.vac ++ [b + idx] } (b + (idx + 1)) (b + len) := by
+        intro p h1 h2
+        have := hu p (by omega) h2
+        simp only [List.mem_append, List.mem_singleton, not_or]
+        exact ⟨⟨this.1, by omega⟩, this.2⟩
+      have ih := consume_taken cap b len f ρ' hc hw j (idx + 1) { s with vac := s.vac ++ [b + idx] } (by omega) hu'
+      have hm : min (idx + 1 + j) len = min (idx + (j + 1)) len := by congr 1; omega
+      have hle : idx + 1 ≤ min (idx + (j + 1)) len := by omega
+      have hr : rangeList (b + idx) (b + min (idx + (j + 1)) len) = (b + idx) :: rangeList (b + (idx + 1)) (b + min (idx + (j + 1)) len) := by
+        rw [rangeList_cons (b + idx) _ (by omega), Nat.add_assoc]
+      simp only [consumeTaken, bind, PF.bind, taken_next_some cap b len idx f s _ hlt hc hw hu, ih, afterConsume, hm]
+      cases hh : dpHit s.dpanic (len - min (idx + (j + 1)) len) <;> simp [pure, hr, List.append_assoc]
+    · have hidx : idx = len := by omega
+      have ih := consume_taken cap b len f ρ' hc hw j idx s hi hu
+      have hm1 : min (idx + (j + 1)) len = len := by omega
+      have hm2 : min (idx + j) len = len := by omega
+      simp only [consumeTaken, bind, PF.bind, taken_next_none cap b len idx f s _ hlt, ih, afterConsume, hm1, hm2]
+
 /-! ## `ConIterOfVec` -/
 
 def vecS (len : Nat) : VecSelf := { vec_len := len }
